@@ -26,6 +26,7 @@ THEOREMS = [
     "MoreExec.Throttle.C07_admission_is_block_pop",
     "MoreExec.BlockProto.C07_blocked_only_while_full",
     "MoreExec.BlockProto.C07_room_wakes_all",
+    "MoreExec.BlockProto.C07_shutdown_releases_blocked",
     "MoreExec.Throttle.C07_admission_kernel",
 ]
 KERNELS = ["K4"]
@@ -75,6 +76,10 @@ def gen_blocking(rng, i, d):
             elif r < 0.3:
                 ops.append(["sleep", rng.choice([0.5, 1.0])])
         clients.append(ops)
+    if rng.random() < 0.3:
+        # shutdown() while submitters may be asleep in submit(): it must get in, wake them, and they must leave (their submit raises)
+        clients.append([["sleep", rng.choice([0.5, 1.0, 1.5])], ["shutdown", rng.choice([True, False])]])
+        d["family_shutdown"] = True
     d["clients"] = clients
     d["base"] = rng.choice(["simpool1", "simpool2", "simsync"])
     d["family"] = "blocking"
@@ -212,6 +217,9 @@ def run_one(desc):
     s, ctx, out = sc.run_stack(desc, props=("C18",))
     hits = monitors(s, ctx, desc)
     hits += [h for h in out.get("C18", []) if h["sig"].startswith("C18/thread-died")]
+    if not ctx.completed and s.end_reason in ("idle", "limit"):
+        # the client program never finished: somebody is stuck for good (e.g. shutdown() locked out by a sleeping submitter)
+        hits.append(hit("C07/stuck:%s" % s.end_reason, "the scenario's clients never finished; parked: %r" % (s.parked(),)))
     blocks = []
     verd = []
     if s.end_reason == "limit":
